@@ -104,4 +104,8 @@ def for_property(pid, tier):
     hs = [h for h in load() if pid in h.props]
     if tier == "quick":
         hs = [h for h in hs if h.tier == "quick"]
+    elif tier == "thorough":
+        # `deep` harnesses are known not to finish within the thorough budget on this machine; they are
+        # kept in the tree (run them with `verif dev`) but are part of no registered command
+        hs = [h for h in hs if h.tier in ("quick", "thorough")]
     return hs
